@@ -36,7 +36,7 @@ ASSUMPTIONS = [
 
 
 def GATES(tier):
-    return [("raising_ops_judged", 300), ("callback_faults_judged", 50), ("inplace_raising_judged", 50), ("fail:nonconf", 20), ("fail:missing_target", 20), ("fail:unknown_kw", 20), ("fail:raising_cb", 10)]
+    return [("raising_ops_judged", 300), ("callback_faults_judged", 50), ("inplace_raising_judged", 50), ("fail:nonconf", 20), ("fail:missing_target", 20), ("fail:unknown_kw", 20), ("fail:raising_cb", 10), ("fail:dup_key", 5)]
 
 
 def judge(ctx, world, op, step, history, failure, case, extra=None):
@@ -47,7 +47,7 @@ def judge(ctx, world, op, step, history, failure, case, extra=None):
         "hkind": op["hkind"], "form": op.get("form"), "inplace": bool(op.get("inplace")), "failure": failure,
         "exc": type(step.exc).__name__, "attr_kind": t.kind if t else None, "elem": t.elem if t else None,
         "nattrs": len((op.get("attr") or "").split(",")) if op["hkind"] in ("update", "transform") else 1,
-        "changed": sorted({d.split(":")[0].split(".")[0].split("[")[0] for d in diffs}),
+        "changed": sorted({r.split(":")[0].rstrip("0123456789") if r.startswith(("arg", "kw:", "i")) and not r.startswith("recv") else r.split(":")[0] for r in dr.changed_roots(step)}),
         "position": op.get("position"),
     }
     if recv_cls:
@@ -138,7 +138,11 @@ def run(ctx, params):
             for ji in range(params["judged_per_case"]):
                 case = [params.get("shard"), ci, ji]
                 validity = rng.choice(dr.VALIDITIES + ["valid"])
-                op = dr.gen_any_op(world, rng, insts, validity=validity, inplace=rng.random() < 0.6)
+                klist_targets = [i for i, x in enumerate(insts) if dr.class_name(world, x) and len(x.__dict__.get("parts", ())) > 0]
+                if validity == "dup_key" and klist_targets:
+                    op = dr.gen_helper(world, rng, insts, rng.choice(klist_targets), hkind="with_item", validity="dup_key", inplace=rng.random() < 0.7, attr="parts")
+                else:
+                    op = dr.gen_any_op(world, rng, insts, validity=validity, inplace=rng.random() < 0.6)
                 insts_before = list(insts)
                 step = dr.execute(world, insts, op, scopes=SCOPES)
                 ctx.count("ops_run")
